@@ -77,4 +77,25 @@ PROPS = {
         streams=[dict(name="builder", quick=400, thorough=20000, thorough_seeds=2)],
         trusted_base=["go-slicereader's Read/Len (modelled as list head/length)", "Go type switch `case Tag, DataType` modelled by the three argument classes tag / data-type constant / other value"],
     ),
+    "C10": dict(
+        lean=["Rscp.Props.C10", "Rscp.Tie.Client", "Rscp.Tie.Config"],
+        streams=[dict(name="deadline", quick=300, thorough=5000, thorough_seeds=2),
+                 dict(name="stall", quick=1, thorough=1, thorough_seeds=1)],
+        trusted_base=["RUNTIME ASSUMPTION (not proved): net.Conn honours deadlines — every blocking Dial/Write/Read returns no later than its deadline; goroutine scheduling latency is 'slack'",
+                      "time is logical in the model; the stream `stall` measures wall-clock on loopback TCP with 1.2 s slack"],
+        assumptions=["partial by nature: the theorem bounds the number and budgets of blocking operations; wall-clock behaviour is observed, not proved"],
+    ),
+    "C11": dict(
+        lean=["Rscp.Props.C11", "Rscp.Tie.Log", "Rscp.Tie.Client"],
+        streams=[dict(name="log", quick=300, thorough=3000, thorough_seeds=2)],
+        trusted_base=["fmt's %v/%s/%+v/%#v rendering and logrus level filtering are modelled only as far as the theorems need (which records are emitted at a level; that []Message renders through Message.String) and validated by the stream `log`",
+                      "classification of the package's log call sites by payload (Model/Log.lean siteClass) is by hand; the site list itself is regenerated and frozen by Tie/Log"],
+    ),
+    "C17": dict(
+        lean=["Rscp.Props.C17", "Rscp.Tie.Globals"],
+        streams=[dict(name="conc", quick=6, thorough=120, thorough_seeds=3, race=True)],
+        trusted_base=["NOT PROVED: the Go memory model, the scheduler, and shared state inside logrus, rijndael256, go-conv — monitored by the race detector in the stream `conc`",
+                      "the interference theorem is about agents whose step function receives only its own component; that the code has this shape is tied by the regenerated (empty) list of package-level write sites and the frozen list of package-level variables"],
+        assumptions=["partial by nature: schedules are sampled by the Go scheduler, not enumerated"],
+    ),
 }
